@@ -114,9 +114,17 @@ def run(facts, res):
             g_some = any(l.kind == "variant" and l.variants == {"Some"} and contains_call(l.term, R.name("diff_maker")) for l in lits_of(u, s.block, facts))
             # plain objects: recorded only if the digest changed
             plain_guarded = bool(ne_edges) and bool(some_edges) and not any(ucfg.reaches(se, s.block, avoid=ne_edges | arr_edges) for se in some_edges)
+            if not plain_guarded and some_edges:
+                # the tests may be hoisted into named booleans (`let unchanged = !is_descriptor && digest == winner.digest`):
+                # feasible-path search with the flags' definitions asserted at their tests
+                from ..pathcond import reaches_avoiding
+                plain_guarded = not reaches_avoiding(u, some_edges, s.block, lambda l: is_ne_true(l) or is_array_true(l), facts)
             # array descriptors are stored as edit scripts against the winner: "unchanged" means "empty script" (the None
             # edge), never "same digest as the previous script" - a non-empty script must always be recorded
             array_recorded = bool(some_edges) and any(ucfg.reaches(se, s.block, avoid=ne_edges) for se in some_edges)
+            if array_recorded and some_edges and not ne_edges:
+                from ..pathcond import reaches_avoiding as _ra
+                array_recorded = _ra(u, some_edges, s.block, is_ne_true, facts)
             res.instance("U2", "update_object: %s: behind the non-empty-diff edge (%s); plain objects need digest != winner.digest (%s); a non-empty array edit script is recorded whatever its digest (%s)" % (
                 s.name(), g_some, plain_guarded, array_recorded), s.loc())
             if not (g_some and plain_guarded):
